@@ -312,7 +312,7 @@ func (x *fnCtx) runInstrs(st *State, b *ssa.BasicBlock, from int) {
 				_ = id
 			}
 			if obj := v.Object(); obj != nil {
-				if _, isVar := obj.(*types.Var); isVar {
+				if tv, isVar := obj.(*types.Var); isVar && !tv.IsField() {
 					if old, ok := fr.names[obj.Name()]; ok && old.isAddr && !v.IsAddr {
 						if al, isAlloc := allocOf(fr, old.v); isAlloc && al.Comment == obj.Name() {
 							continue // keep the binding to the variable's cell
@@ -1270,7 +1270,7 @@ func mapKey(k *Val) *Term {
 }
 
 func mapHeapName(mt *types.Map) string {
-	return "M:" + typeStr(mt.Key()) + ":" + typeStr(mt.Elem())
+	return "M:" + canonTypeStr(mt.Key()) + ":" + canonTypeStr(mt.Elem())
 }
 
 func (x *fnCtx) mapInit(st *State, m *Val) {
